@@ -30,6 +30,7 @@ class ElectionRule:  # pragma: no cover
     method = None # one of ('meek', 'wigm', 'qpq'): underlying method for report formats
     E = None
     quota_name = "Quota"    # allow rule-specific override for eg "Threshold"
+    electsUndeclared = True # False for a rule under which undeclared write-ins cannot be elected
 
     @classmethod
     def ruleNames(cls):
